@@ -19,6 +19,14 @@ declarations:
   - decl: ~Widget()
   - decl: int size()
 - decl: std::vector<int> *getvec() +owner(caller)
+- decl: void setval(int v)
+  options:
+    wrap_c: false
+    wrap_fortran: false
+- decl: void setval(double v)
+- decl: void setval(const char *v)
+- decl: struct Pt { int x; double y; }
+- decl: double norm(Pt *p)
 """
 
 KIND = {".c": "c", ".cpp": "c", ".h": "c", ".hpp": "c", ".f": "f", ".f90": "f", ".lua": "lua", ".py": "py"}
@@ -146,9 +154,59 @@ def check_declaration_off(inp):
     return None
 
 
+OFFTYPE = """library: sel
+cxx_header: sel.hpp
+options:
+%%s
+declarations:
+- decl: void keep(int a)
+- decl: %s
+  options:
+%s
+%s
+- decl: %s
+%s
+"""
+TYPE_DECLS = {
+    "struct": ("struct Hidden { int i; double d; }", "", "struct Shown { int j; }", ""),
+    "class": ("class Hidden", "  declarations:\n  - decl: void poke(int a)", "class Shown",
+              "  declarations:\n  - decl: void peek(int a)"),
+}
+
+
+def check_type_off(inp):
+    """a struct / class whose wrapper is off for a language does not appear in that language's files"""
+    global YAML
+    saved = YAML
+    d = TYPE_DECLS[inp["type_off"]]
+    YAML = OFFTYPE % (d[0], "".join("    wrap_%s: false\n" % l for l in inp["langs"]), d[1], d[2], d[3])
+    try:
+        files, cf, ff = run({"python": bool(inp.get("python")), "lua": False}, {})
+    except (RuntimeError, SystemExit):
+        return None
+    finally:
+        YAML = saved
+    import re
+    shown = {"c": False, "f": False}
+    for rel, data in sorted(files.items()):
+        text = data.decode("utf-8", "replace")
+        kind = classify(os.path.basename(rel))
+        if kind in shown and re.search(r"shown", text, re.I):
+            shown[kind] = True
+        for lang, k in (("c", "c"), ("fortran", "f"), ("python", "py")):
+            if kind == k and lang in inp["langs"] and re.search(r"hidden", text, re.I):
+                ln = next(l for l in text.split("\n") if re.search(r"hidden", l, re.I))
+                return "wrap_%s is off for the %s 'Hidden' but %s mentions it: %r" % (lang, inp["type_off"], rel, ln.strip()[:80])
+    if not (shown["c"] and shown["f"]):
+        return "the %s 'Shown' (wrappers on) is missing from the C or Fortran files: %s" % (inp["type_off"], shown)
+    return None
+
+
 def check(inp):
     if inp.get("declaration_off"):
         return check_declaration_off(inp)
+    if inp.get("type_off"):
+        return check_type_off(inp)
     if inp.get("nested"):
         return check_nested(inp)
     flags, dirs = inp["flags"], inp.get("dirs", {})
@@ -206,3 +264,7 @@ def candidates(seed, around=None):
     # per-declaration switch-off must also hold for the shorter signatures of a function with default arguments
     yield {"declaration_off": ["fortran"]}
     yield {"declaration_off": ["c", "fortran"]}
+    for t in ("struct", "class"):
+        yield {"type_off": t, "langs": ["fortran"]}
+        yield {"type_off": t, "langs": ["c", "fortran"]}
+        yield {"type_off": t, "langs": ["python"], "python": True}
